@@ -615,6 +615,36 @@ def run(ctx):
     okfr = fr is not None and norm_text(U.expand_locals(fr[0].node, U.kwarg(fr[1], 'url_filter') or ast.Constant(value=None))).endswith("factory['DemuxURLFilter']")
     ck.expect(okfr, 'C02-D5', fr[0].qual if fr else 'FetchRule construction', "FetchRule(url_filter=factory['DemuxURLFilter'])",
               'FetchRule is not given the demux filter', fr[0].loc(fr[1]) if fr else '')
+    # host names compare case-insensitively and URLInfo.hostname is lower case: the lists of the two host-name filters must be lower
+    # case by the time they are compared - lowered by the filter itself, or by the option's type function
+    optm = repo.module('wpull.application.options')
+
+    def lowered_by_option(dest):
+        for c in ast.walk(optm.tree):
+            if isinstance(c, ast.Call) and U.attr_name(c) == 'add_argument' and any(
+                    isinstance(a, ast.Constant) and a.value == '--' + dest.replace('_', '-') for a in c.args):
+                t = U.kwarg(c, 'type')
+                if t is not None and isinstance(t, ast.Attribute):
+                    for fn in repo.funcs.values():
+                        if fn.module is optm and fn.name == t.attr:
+                            return any(isinstance(x, ast.Attribute) and x.attr in ('lower', 'casefold') for x in ast.walk(fn.node))
+        return False
+    for cname, dests in (('HostnameFilter', ('hostnames', 'exclude_hostnames')), ('BackwardDomainFilter', ('domains', 'exclude_domains'))):
+        ci = repo.cls(UF + ':' + cname)
+        init = ci.methods['__init__']
+        params = [p_ for p_ in init.params if p_ != 'self']
+        for p_, dest in zip(params, dests):
+            low = False
+            for st in walk_no_nested(init.node):
+                if isinstance(st, ast.Assign) and any(U.is_self_attr(t) for t in st.targets) and any(isinstance(x, ast.Name) and x.id == p_ for x in ast.walk(st.value)):
+                    low = any(isinstance(x, ast.Attribute) and x.attr in ('lower', 'casefold') for x in ast.walk(st.value))
+            # ... or at the comparison
+            tm = ci.methods['test']
+            cmp_low = any(isinstance(x, ast.Attribute) and x.attr in ('lower', 'casefold') and not (isinstance(x.value, ast.Attribute) and x.value.attr == 'hostname')
+                          for m_ in ci.methods.values() if m_.name != '__init__' for x in ast.walk(m_.node))
+            ck.expect(low or cmp_low or lowered_by_option(dest), 'C02-D5', init.qual, '%s: the list is compared in lower case' % p_,
+                      '--%s Example.COM is compared as typed with the lower-case host name of each URL: the entry never matches, so an excluded '
+                      'host is crawled (and an accepted one is not)' % dest.replace('_', '-'), init.loc())
 
 
 def _gated_by_verdict(cfg, fi, is_verdict_def, goals):
@@ -704,11 +734,27 @@ def _robots_hops(ctx, f, start_call):
         return
 
     def looks(n):
-        for c in F.node_calls(n):
-            an = U.attr_name(c)
-            if an in ('next_request', 'is_redirect', 'next_location', 'consult_filters', 'test', 'test_info'):
+        # a look at *where* the next request goes: a filter verdict, or the host of the next request / redirect target (a test of its
+        # scheme alone says nothing about the host set)
+        e = F.node_expr(n) if hasattr(F, 'node_expr') else None
+        if e is None:
+            from ..locks import node_expr
+            e = node_expr(n)
+        if e is None:
+            return False
+        for c in U.calls(e):
+            if U.attr_name(c) in ('consult_filters', 'test', 'test_info'):
                 return True
-        return any(isinstance(y, ast.Attribute) and y.attr == 'redirect_tracker' for y in walk_no_nested(n.stmt)) if n.stmt is not None else False
+        nxt = any(U.attr_name(c) in ('next_request', 'next_location') for c in U.calls(e)) or any(
+            isinstance(y, ast.Attribute) and y.attr == 'redirect_tracker' for y in ast.walk(e))
+        host = any(isinstance(y, ast.Attribute) and y.attr in ('hostname', 'hostname_with_port', 'host', 'authority') for y in ast.walk(e))
+        if nxt and host:
+            return True
+        # ... or of a local that holds the next request
+        names = {y.id for y in ast.walk(e) if isinstance(y, ast.Name)}
+        holds = {nm for nm, ds in U.local_defs(f.node).items() for v, k, st in ds if v is not None and any(
+            isinstance(c, ast.Call) and U.attr_name(c) in ('next_request', 'next_location') for c in ast.walk(v))}
+        return bool(host and names & holds)
     p = cfg.find_path(inside[0], lambda x: x is starts[0], edge_ok=F.normal, stop=looks)
     ck.expect(p is None, 'C02-D4', f.qual, 'redirect hops of the robots.txt request are inspected before they are requested',
               'the robots.txt request follows redirects to any host and path (the loop restarts the session without looking at the next '
